@@ -499,6 +499,9 @@ def worker(name, seed, tier, **kw):
         return worker_update(seed, tier, False)
     if name == 'update-stale':
         return worker_update(seed, tier, True)
+    if name == 'parlay':
+        # parameters of shape (d,), (d,d) in every memory layout, at construction and through update_params (oracle: C01)
+        return c01.worker('parlay', seed, tier)
     if name.startswith('updparams'):
         return worker_updparams(int(name[9:]), seed, tier)
     if name == 'update2':
@@ -684,13 +687,14 @@ def make_jobs(ctx):
     jobs += [{'name': 'bbox', 'seed': int(ctx.seed * 1000003 + 31), 'tier': ctx.tier},
              {'name': 'update', 'seed': int(ctx.seed * 1000003 + 32), 'tier': ctx.tier},
              {'name': 'update2', 'seed': int(ctx.seed * 1000003 + 35), 'tier': ctx.tier},
+             {'name': 'parlay', 'seed': int(ctx.seed * 1000003 + 39), 'tier': ctx.tier},
              {'name': 'updparams0', 'seed': int(ctx.seed * 1000003 + 36), 'tier': ctx.tier},
              {'name': 'updparams1', 'seed': int(ctx.seed * 1000003 + 37), 'tier': ctx.tier},
              {'name': 'updparams2', 'seed': int(ctx.seed * 1000003 + 38), 'tier': ctx.tier},
              {'name': 'update-stale', 'seed': int(ctx.seed * 1000003 + 33), 'tier': ctx.tier},
              {'name': 'update-stale2', 'seed': int(ctx.seed * 1000003 + 34), 'tier': ctx.tier}]
     # compiled things first
-    order = {'bbox': 0, 'update': 0, 'update2': 0, 'update-stale': 0, 'update-stale2': 0, 'updparams0': 0, 'updparams1': 0, 'updparams2': 0}
+    order = {'bbox': 0, 'update': 0, 'update2': 0, 'update-stale': 0, 'update-stale2': 0, 'updparams0': 0, 'updparams1': 0, 'updparams2': 0, 'parlay': 0}
     jobs.sort(key=lambda j: order.get(j['name'], 0 if isinstance(c01.FORMS.get(j['name'], (0, 0, ''))[2], str) else 1))
     tjobs = [{'name': 'threads%d' % n, 'seed': int(ctx.seed * 1000003 + 555), 'tier': ctx.tier} for n in THREAD_COUNTS]
     return jobs, tjobs
